@@ -55,6 +55,7 @@ type c06World struct {
 	// the server and imported by the client (flagged inherited, finite lifetime, no lease)
 	claim    bool
 	claimOff bool // ... minted with Encryption and Integrity both switched off in its policy
+	tokenL   bool // the authenticated session without a cipher (L) is made by TOKEN, which leaves key bytes behind
 	idKnown  bool
 }
 
@@ -147,6 +148,10 @@ func (w *c06World) establish(keyed bool) bool {
 	} else {
 		cc = baseCfg(security.SecurityRequired, security.SecurityOptional, []security.AuthMethod{mCTB}, []security.CryptoMethod{security.CryptoAES}, false)
 		sc = c06ServerCfg(security.CryptoBlowfish, security.SecurityOptional)
+		if w.tokenL {
+			cc.AuthMethods, sc.AuthMethods = []security.AuthMethod{mTOK}, []security.AuthMethod{mTOK}
+			cc.Token = goodToken("alice@verif.domain")
+		}
 		cc.SessionCache = w.cliCacheL
 	}
 	cc.Command = 5
@@ -163,6 +168,11 @@ func (w *c06World) establish(keyed bool) bool {
 		}
 		w.K, w.cliHasK = s, true
 	} else {
+		if w.tokenL {
+			// the TOKEN exchange leaves a shared secret behind; no cipher was agreed, so nothing on a
+			// resumed connection can be protected by it: for the reference this session has no key
+			s.key = nil
+		}
 		if len(s.key) != 0 {
 			w.viol("harness-establish", "keyless establishment has a key")
 			return false
@@ -422,8 +432,12 @@ func (w *c06World) probes(full bool) {
 				w.probe(c06Req{sid: w.K.sid, keyKind: "none", reply: reply, addr: addr, label: "K-nokey/" + tag}, &w.K)
 			}
 			if w.L.exists {
-				w.probe(c06Req{sid: w.L.sid, keyKind: "none", reply: reply, addr: addr, label: "L-idonly/" + tag}, &w.L)
-				w.probe(c06Req{sid: w.L.sid, keyKind: "wrong", key: wrong, reply: reply, addr: addr, label: "L-wrongkey/" + tag}, &w.L)
+				ln := "L"
+				if w.tokenL {
+					ln = "Ltoken"
+				}
+				w.probe(c06Req{sid: w.L.sid, keyKind: "none", reply: reply, addr: addr, label: ln + "-idonly/" + tag}, &w.L)
+				w.probe(c06Req{sid: w.L.sid, keyKind: "wrong", key: wrong, reply: reply, addr: addr, label: ln + "-wrongkey/" + tag}, &w.L)
 			}
 			if w.U.exists {
 				w.probe(c06Req{sid: w.U.sid, keyKind: "none", reply: reply, addr: addr, label: "U-idonly/" + tag}, &w.U)
@@ -628,6 +642,10 @@ func c06Replay(hist []string, res *vlib.Result, layout int) *c06World {
 		c06SrvCache = security.NewSessionCache()
 		w.hist = "servers with a SessionCache of their own: " + w.hist
 	}
+	w.tokenL = layout == 5
+	if w.tokenL {
+		w.hist = "(the authenticated cipher-less session is made by TOKEN) " + w.hist
+	}
 	c06SrvNever = layout == 4
 	if c06SrvNever {
 		w.hist = "(servers whose own policy is Encryption=NEVER, Integrity=NEVER) " + w.hist
@@ -703,7 +721,7 @@ func c06BFS(depth int, res *vlib.Result, layout int) {
 func C06Plan() *vlib.Plan {
 	p := &vlib.Plan{
 		Property: "C06", Level: "model_checking", Workers: 1,
-		Rule:   "E-BFS on the real server resumption path. Events: establish a keyed session (real handshake), establish a key-less session (no common cipher), scripted resumption with the right id+key from another address, legitimate client resumption, advance virtual time by lease/2, lease+60, duration+60, invalidate K / L, sweep expired. A state is the event history replayed on a cleared cache; canonical key = (status and remaining-lifetime bucket of K and L, client still holds K, replay recorded). In EVERY state a battery of scripted requests is fired: {K, L, unknown id} x {wrong key, no key} x {reply requested, not} x {same, different source address}, every single-character alteration of a live id (once), and byte-for-byte replays (whole and truncated at every frame boundary) of a recorded legitimate resumed connection. The whole search runs five times: with the keyed session minted/imported as a claim session (inherited flag, finite lifetime, no lease) instead of negotiated, once with the default policy, once minted with Encryption and Integrity off, once held by servers whose own policy is Encryption NEVER / Integrity NEVER (it still carries a key, and a resumed connection is protected by it); servers on the package-global cache, and servers configured with a SessionCache of their own and an identity-mapping PostAuthPolicy (sessions are invalidated through the package API, swept in both). Plus late imports: a claim id whose embedded deadline lies {20 years, a day, an hour, 2 min} in the past, {2 min, an hour} ahead or is absent x importer fallback duration {none, 1 h} x {imported once, twice} is registered on the server and then resumed by a requester holding id and key: resumed iff the deadline has not passed. Oracle = reference map id -> {key?, expiry, invalidated}. traces = states replayed; transitions = events + probes executed.",
+		Rule:   "E-BFS on the real server resumption path. Events: establish a keyed session (real handshake), establish a key-less session (no common cipher), scripted resumption with the right id+key from another address, legitimate client resumption, advance virtual time by lease/2, lease+60, duration+60, invalidate K / L, sweep expired. A state is the event history replayed on a cleared cache; canonical key = (status and remaining-lifetime bucket of K and L, client still holds K, replay recorded). In EVERY state a battery of scripted requests is fired: {K, L, unknown id} x {wrong key, no key} x {reply requested, not} x {same, different source address}, every single-character alteration of a live id (once), and byte-for-byte replays (whole and truncated at every frame boundary) of a recorded legitimate resumed connection. The whole search runs six times (the last to depth 4, with the authenticated cipher-less session made by TOKEN instead of CLAIMTOBE): with the keyed session minted/imported as a claim session (inherited flag, finite lifetime, no lease) instead of negotiated, once with the default policy, once minted with Encryption and Integrity off, once held by servers whose own policy is Encryption NEVER / Integrity NEVER (it still carries a key, and a resumed connection is protected by it); servers on the package-global cache, and servers configured with a SessionCache of their own and an identity-mapping PostAuthPolicy (sessions are invalidated through the package API, swept in both). Plus late imports: a claim id whose embedded deadline lies {20 years, a day, an hour, 2 min} in the past, {2 min, an hour} ahead or is absent x importer fallback duration {none, 1 h} x {imported once, twice} is registered on the server and then resumed by a requester holding id and key: resumed iff the deadline has not passed. Oracle = reference map id -> {key?, expiry, invalidated}. traces = states replayed; transitions = events + probes executed.",
 		Assume: []string{"virtual time = re-storing every cache entry with its expiration moved back (public API), margins of 60 s against real time", "single process, sequential (the server-side cache is process-global)"},
 	}
 	p.Gen = func(tier string, yield func(vlib.Case)) {
@@ -727,6 +745,12 @@ func C06Plan() *vlib.Plan {
 		yield(vlib.Case{ID: fmt.Sprintf("bfs/claim-session-enc-and-integrity-off/depth=%d", D), Run: func() *vlib.Result {
 			res := &vlib.Result{}
 			c06BFS(D, res, 3)
+			return res
+		}})
+		// ... with the authenticated session that has no cipher made by TOKEN (key bytes, no cipher)
+		yield(vlib.Case{ID: fmt.Sprintf("bfs/token-cipherless-session/depth=%d", min(D, 4)), Run: func() *vlib.Result {
+			res := &vlib.Result{}
+			c06BFS(min(D, 4), res, 5)
 			return res
 		}})
 		// ... and with the claim session held by servers whose OWN policy is NEVER / NEVER
